@@ -27,7 +27,7 @@ Ref = namedtuple("Ref", "kind site n")  # kind: 'list' | 'dict' | 'ddict:list' |
 Bound = namedtuple("Bound", "obj attr")  # a method of a collection
 GenV = namedtuple("GenV", "site items")  # a one-shot iterator
 CONSUMERS = ("list", "tuple", "set", "frozenset", "sorted", "dict", "sum", "any", "all", "max", "min", "enumerate", "zip", "map", "filter", "reversed")
-MAX_LEN = 16
+MAX_LEN = 32
 MAX_ALLOC = 12
 SCENARIO_LIMIT = 8  # sizes compared with a constant >= this are beyond what the small scenarios say anything about
 
